@@ -366,46 +366,130 @@ def text_and_assembly(run, model, rule_text="C07.text", rule_asm="C07.assembly")
     run.check(ok, rule_text, gm.qual + ":inspection", "the source is located for this contract's condition", "the lambda inspection is not done for the contract's own condition", gm.loc())
 
 
-def decorator_regex(run, model, rule="C07.layout-regex"):
-    """Structure of the two regular expressions that delimit a decorator in the source (parsed, not run)."""
-    import re._parser as sre_parse  # stdlib regex AST
+def _regex_match_prefix(tree, text):
+    """Does the parsed regular expression (stdlib regex AST) match at the start of ``text``?  A small backtracking
+    interpreter for the constructs such delimiting patterns use; anything else is an AnalysisError."""
     import re._constants as C
 
-    mod = model.modules["_represent"]
-    specs = {"_DECORATOR_RE": None, "_DEF_CLASS_RE": None}
-    for name in specs:
-        vals = mod.assigns.get(name, [])
-        if len(vals) == 1 and isinstance(vals[0], ast.Call) and src_of(vals[0].func) == "re.compile" and vals[0].args and isinstance(vals[0].args[0], ast.Constant):
-            specs[name] = vals[0].args[0].value
-    pat = specs["_DECORATOR_RE"]
-    if pat is None:
-        raise AnalysisError("_represent._DECORATOR_RE is not a literal re.compile(...)")
-    tree = list(sre_parse.parse(pat))
-    # expected shape: ^ \s* @ <identifier start class>  and nothing after it (a prefix match): every line that starts
-    # a decorator must be recognised, whatever follows the first identifier character
-    bad = None
-    shape = [op for op, av in tree]
-    if not (len(tree) == 4 and tree[0][0] == C.AT and tree[1][0] == C.MAX_REPEAT and tree[2] == (C.LITERAL, ord("@")) and tree[3][0] == C.IN):
-        bad = "the pattern `%s` is not `^ whitespace* @ identifier-start` with nothing after it: a line such as `@name  # comment` or `@a.b.setter` may no longer be recognised as the next decorator, so the decorator text spans two decorators and the violation is replaced by a parsing error" % pat
-    else:
-        lo, hi, sub = tree[1][1]
-        if not (lo == 0 and hi == C.MAXREPEAT):
-            bad = "leading whitespace is limited in `%s`" % pat
-        members = tree[3][1]
-        chars = set()
+    def cls_has(members, ch):
+        neg = False
+        hit = False
         for op, av in members:
-            if op == C.RANGE:
-                chars |= set(range(av[0], av[1] + 1))
+            if op == C.NEGATE:
+                neg = True
             elif op == C.LITERAL:
-                chars.add(av)
-            elif op == C.CATEGORY and av == C.CATEGORY_WORD:
-                chars |= set(map(ord, "abcdefghijklmnopqrstuvwxyzABCDEFGHIJKLMNOPQRSTUVWXYZ_0123456789"))
-        need = set(map(ord, "abcdefghijklmnopqrstuvwxyzABCDEFGHIJKLMNOPQRSTUVWXYZ_"))
-        if not need <= chars:
-            bad = "the first character after `@` does not accept every identifier start in `%s`" % pat
-    run.check(bad is None, rule, "_represent._DECORATOR_RE", "prefix pattern `^\\s*@[a-zA-Z_]`: any line starting a decorator is recognised", bad or "", "icontract/_represent.py", None, pat)
-    pat2 = specs["_DEF_CLASS_RE"]
-    if pat2 is None:
-        raise AnalysisError("_represent._DEF_CLASS_RE is not a literal re.compile(...)")
-    need2 = ["async", "def ", "class "]
-    run.check(all(x in pat2 for x in need2) and pat2.startswith("^\\s*"), rule, "_represent._DEF_CLASS_RE", "recognises def / async def / class as the end of the decorator", "the pattern `%s` no longer recognises def, async def and class" % pat2, "icontract/_represent.py", None, pat2)
+                hit = hit or ord(ch) == av
+            elif op == C.RANGE:
+                hit = hit or av[0] <= ord(ch) <= av[1]
+            elif op == C.CATEGORY:
+                if av == C.CATEGORY_SPACE:
+                    hit = hit or ch.isspace()
+                elif av == C.CATEGORY_NOT_SPACE:
+                    hit = hit or not ch.isspace()
+                elif av == C.CATEGORY_WORD:
+                    hit = hit or ch.isalnum() or ch == "_"
+                elif av == C.CATEGORY_NOT_WORD:
+                    hit = hit or not (ch.isalnum() or ch == "_")
+                elif av == C.CATEGORY_DIGIT:
+                    hit = hit or ch.isdigit()
+                else:
+                    raise AnalysisError("regex category %s not handled" % av)
+            else:
+                raise AnalysisError("regex class member %s not handled" % op)
+        return hit != neg
+
+    def m(items, i, pos, k):
+        """match items[i:] at pos, then continuation k(pos)"""
+        if i == len(items):
+            return k(pos)
+        op, av = items[i]
+        nxt = lambda p: m(items, i + 1, p, k)
+        if op == C.AT:
+            if av in (C.AT_BEGINNING, C.AT_BEGINNING_STRING):
+                return pos == 0 and nxt(pos)
+            if av in (C.AT_END, C.AT_END_STRING):
+                return pos == len(text) and nxt(pos)
+            if av == C.AT_BOUNDARY:
+                a = pos > 0 and (text[pos - 1].isalnum() or text[pos - 1] == "_")
+                b = pos < len(text) and (text[pos].isalnum() or text[pos] == "_")
+                return a != b and nxt(pos)
+            raise AnalysisError("regex anchor %s not handled" % av)
+        if op == C.LITERAL:
+            return pos < len(text) and ord(text[pos]) == av and nxt(pos + 1)
+        if op == C.NOT_LITERAL:
+            return pos < len(text) and ord(text[pos]) != av and nxt(pos + 1)
+        if op == C.ANY:
+            return pos < len(text) and text[pos] != "\n" and nxt(pos + 1)
+        if op == C.IN:
+            return pos < len(text) and cls_has(av, text[pos]) and nxt(pos + 1)
+        if op in (C.MAX_REPEAT, C.MIN_REPEAT):
+            lo, hi, sub = av
+            sub = list(sub)
+
+            def rep(count, p):
+                if count >= lo and nxt(p):
+                    return True
+                if count < hi and count < 64:
+                    return m(sub, 0, p, lambda q: q > p and rep(count + 1, q))
+                return False
+
+            return rep(0, pos)
+        if op == C.SUBPATTERN:
+            return m(list(av[3]), 0, pos, nxt)
+        if op == C.BRANCH:
+            return any(m(list(alt), 0, pos, nxt) for alt in av[1])
+        raise AnalysisError("regex construct %s not handled" % op)
+
+    return bool(m(list(tree), 0, 0, lambda p: True))
+
+
+def decorator_regex(run, model, rule="C07.layout-regex"):
+    """The regular expressions that delimit a decorator in the source file, found by their role (module-level
+    ``re.compile(<literal>)`` constants matched against source lines in ``inspect_decorator``), are interpreted by the
+    checker's own matcher on representative lines: every line that starts a decorator, a ``def``, an ``async def`` or
+    a ``class`` ends the decorator text; a continuation line of the condition never does -- whatever identifier it
+    starts with."""
+    import re._parser as sre_parse  # stdlib regex AST
+
+    mod = model.modules["_represent"]
+    fi = model.func("_represent.inspect_decorator")
+    patterns = {}
+    for name, vals in mod.assigns.items():
+        if len(vals) == 1 and isinstance(vals[0], ast.Call) and src_of(vals[0].func) == "re.compile" and vals[0].args and isinstance(vals[0].args[0], ast.Constant) and isinstance(vals[0].args[0].value, str) and len(vals[0].args) == 1 and not vals[0].keywords:
+            patterns[name] = vals[0].args[0].value
+
+    def names_in(expr):
+        return [c.func.value.id for c in ast.walk(expr) if isinstance(c, ast.Call) and isinstance(c.func, ast.Attribute) and c.func.attr in ("match", "search") and isinstance(c.func.value, ast.Name) and c.func.value.id in patterns]
+
+    # the tests of inspect_decorator that match lines: each is a disjunction of patterns
+    tests = []
+    for sub in ast.walk(fi.node):
+        if isinstance(sub, (ast.If, ast.While, ast.IfExp)) and names_in(sub.test):
+            tests.append((sub, names_in(sub.test)))
+        if isinstance(sub, ast.comprehension):
+            for cond in sub.ifs:
+                if names_in(cond):
+                    tests.append((cond, names_in(cond)))
+    if not tests:
+        raise AnalysisError("_represent.inspect_decorator: no test matching source lines against a module-level pattern was found")
+    deco = ["@a", "    @name  # comment", "@a.b.setter", "  @_x(", "\t@icontract.require(", "@registry['x']", "@Z"]
+    defs = ["def f():", "  def  f():", "async def f():", "    async   def f(", "class C:", "    class  C(object):", "\tdef g(self):"]
+    cont = ["default is None or x < default", "    defaults)", "classes = 1", "    class_name == 'x'", "definitely", "async_mode", "    x > 0", ")", "lambda x: x", "", "  # @comment", "    error=ValueError)", "x @ y", "    'def ' in x", "asynchronous = 1"]
+    trees = {name: list(sre_parse.parse(p)) for name, p in patterns.items()}
+    ends_on_def = False
+    for node, names in tests:
+        acc = lambda line: any(_regex_match_prefix(trees[nm], line) for nm in names)
+        text = " or ".join("%s=%r" % (nm, patterns[nm]) for nm in names)
+        missed = [l for l in deco if not acc(l)]
+        wrong = [l for l in cont if acc(l)]
+        bad = None
+        if missed:
+            bad = "a line that starts a decorator is not recognised, e.g. %r: the text taken for the decorator spans two decorators and the violation is replaced by a parsing error" % missed[0]
+        elif wrong:
+            bad = "a continuation line of the condition is taken for the end of the decorator, e.g. %r: the decorator text is cut short and the violation is replaced by a SyntaxError" % wrong[0]
+        if all(acc(l) for l in defs):
+            ends_on_def = True
+        elif any(acc(l) for l in defs) and bad is None:
+            bad = "only some of def / async def / class end the decorator, e.g. not %r" % [l for l in defs if not acc(l)][0]
+        run.check(bad is None, rule, "_represent.inspect_decorator:line %d" % getattr(node, "lineno", 0), "patterns %s: decorator lines accepted, continuation lines rejected" % text, (bad or "") + " (patterns: %s)" % text, fi.loc(node), None, text)
+    run.check(ends_on_def, rule, "_represent.inspect_decorator:end", "def / async def / class end the decorator", "no test recognises def, async def and class lines as the end of the decorator", fi.loc())
